@@ -85,6 +85,11 @@ class Spec:
             self.nodes.setdefault(op[1], 0); return "ok", 0
         if k == "attr":
             self.nodes[op[1]] = op[2]; return "ok", 0
+        if k in ("clear", "clearedges"):
+            self.pres, self.first, self.addts, self.accepted_ts, self.lenient = {}, {}, {}, set(), set()
+            if k == "clear":
+                self.nodes = {}
+            return "ok", 0
         el = elems(op)
         if el is None:
             return "ok", 0
